@@ -55,4 +55,56 @@ Theorem C06_edit_top_level_sorted :
 Proof. exact edit_top_sorted. Qed.
 Print Assumptions C06_edit_top_level_sorted.
 
-(* creators-level theorems (canon of the value each creator writes): added from Proofs/CreatorsProofs.v when in place *)
+(* ---------------------------------------------------------------------------------------------- *)
+(* creator level (Model/Creators.v, tied to torrent.py byte for byte -- `encode` of the modelled value vs *)
+(* the bytes of the written file -- by the unit correspondence of harness/props/creators_common.py).      *)
+(* [created H1 H256 B pl o root name t m]: m is the dictionary (after sort_meta) that one of the six       *)
+(* creator variants writes for payload t under options o: TorrentFile with align False / True,            *)
+(* TorrentFileV2, TorrentAssembler (meta version 2), TorrentFileHybrid, TorrentAssembler (meta version 3).  *)
+(* [wf_node t]: names distinct, non-empty and separator-free per directory.  Every option subset: o ranges *)
+(* over all [options] (announce list, comment, private, source, url-list, httpseeds, created by, date).     *)
+(* ---------------------------------------------------------------------------------------------- *)
+From TF Require Import Model.Creators Proofs.CreatorsProofs Proofs.CreatorsProofs2 Proofs.CreatorsProps.
+
+(* the written value is canonical at every nesting level (info, file tree, files entries, piece layers) *)
+Theorem C06_created_is_canonical : forall (H1 H256 : bytes -> bytes) B, 0 < B -> forall k pl, pl = B * 2 ^ k ->
+  forall o root name t m, wf_node t -> created H1 H256 B pl o root name t m -> canon m.
+Proof. exact created_is_canonical. Qed.
+Print Assumptions C06_created_is_canonical.
+
+(* hence the BYTES on disk (pyben.dump = encode) are accepted by the strict recogniser ... *)
+Theorem C06_created_bytes_are_canonical : forall (H1 H256 : bytes -> bytes) B, 0 < B -> forall k pl, pl = B * 2 ^ k ->
+  forall o root name t m, wf_node t -> created H1 H256 B pl o root name t m ->
+  canonical_bytes (encode m) = true.
+Proof. exact created_bytes_canonical. Qed.
+Print Assumptions C06_created_bytes_are_canonical.
+
+(* ... and the strict decoder reads back exactly the value that was written *)
+Theorem C06_created_bytes_decode_back : forall (H1 H256 : bytes -> bytes) B, 0 < B -> forall k pl, pl = B * 2 ^ k ->
+  forall o root name t m, wf_node t -> created H1 H256 B pl o root name t m ->
+  strict_decode (encode m) = Some m.
+Proof. exact created_bytes_decode. Qed.
+Print Assumptions C06_created_bytes_decode_back.
+
+(* structure of a v1 metafile (both align settings): name, piece length, pieces a whole number of 20-byte
+   digests, exactly one of length / files *)
+Theorem C06_structure_v1 : forall H1 : bytes -> bytes, (forall x, length (H1 x) = 20) ->
+  forall align o root name pl t, v1_structure_ok (create_v1 H1 align o root name pl t).
+Proof. exact create_v1_structure_ok. Qed.
+Print Assumptions C06_structure_v1.
+
+(* structure of a v2 metafile (TorrentFileV2, TorrentAssembler 2): name, piece length, meta version 2, a file tree
+   dictionary, top-level piece layers whose values are whole numbers of 32-byte digests *)
+Theorem C06_structure_v2 : forall (H1 H256 : bytes -> bytes) B, 0 < B -> forall k pl, pl = B * 2 ^ k ->
+  (forall x, length (H256 x) = 32) ->
+  forall o name t m, wf_node t -> v2_output H1 H256 B pl o name t m -> v2_structure_ok m.
+Proof. exact v2_output_structure_ok. Qed.
+Print Assumptions C06_structure_v2.
+
+(* a hybrid metafile (TorrentFileHybrid, TorrentAssembler 3) has all of both *)
+Theorem C06_structure_hybrid : forall (H1 H256 : bytes -> bytes) B, 0 < B -> forall k pl, pl = B * 2 ^ k ->
+  (forall x, length (H1 x) = 20) -> (forall x, length (H256 x) = 32) ->
+  forall o name t m, wf_node t -> hybrid_output H1 H256 B pl o name t m ->
+  v1_structure_ok m /\ v2_structure_ok m.
+Proof. exact hybrid_output_structure_ok. Qed.
+Print Assumptions C06_structure_hybrid.
